@@ -14,7 +14,7 @@ import c18_common as cc
 from c18_common import pick
 
 ID = 'C18'
-GEN = ['projection']
+GEN = ['projection', 'utils']
 PROPS = 'Props/C18.v'
 MODEL_VO = ['Model/Projection.v', 'Model/ProjectionTree.v']
 CASE_TYPE = 'kase'
